@@ -344,7 +344,7 @@ func filled(base *gozod.ZodError, list []core.ZodIssue) []core.ZodIssue {
 
 type schemaGen struct{ r *hx.Rng }
 
-var fieldPool = []string{"a", "b", "name", "0", "a.b", "x y", "_errors", "items"}
+var fieldPool = []string{"a", "b", "name", "0", "a.b", "x y", "_errors", "items", "t", "v"}
 
 func (g *schemaGen) leaf() (core.ZodSchema, string) {
 	switch g.r.Intn(9) {
@@ -425,7 +425,21 @@ func (g *schemaGen) schema(depth int) (core.ZodSchema, string) {
 		return types.Record(gozod.String().Min(2), s), "Record(String().Min(2)," + d + ")"
 	case 7:
 		s, d := g.schema(depth + 1)
-		return gozod.Map(gozod.String(), s), "Map(String()," + d + ")"
+		switch g.r.Intn(4) {
+		case 0:
+			return gozod.Map(gozod.String(), s), "Map(String()," + d + ")"
+		case 1:
+			s2, d2 := g.schema(depth + 1)
+			return gozod.Intersection(s, s2), "Intersection(" + d + "," + d2 + ")"
+		case 2:
+			return gozod.DiscriminatedUnion("t", []any{
+				gozod.Object(core.ObjectSchema{"t": gozod.Literal("a"), "v": s}),
+				gozod.Object(core.ObjectSchema{"t": gozod.Literal("b")}),
+			}), `DiscriminatedUnion("t",[Object{t:"a",v:` + d + `},Object{t:"b"}])`
+		default:
+			return gozod.Object(core.ObjectSchema{"t": gozod.String().Optional(), "v": s}).Refine(func(map[string]any) bool { return false }),
+				"Object{t:String().Optional(),v:" + d + "}.Refine(false)"
+		}
 	default:
 		return g.leaf()
 	}
@@ -438,7 +452,7 @@ func (g *schemaGen) value(depth int) (any, string) {
 	}
 	switch k {
 	case 0:
-		s := hx.Pick(g.r, []string{"", "x", "ab", "hello", "a@b.co", "ABC"})
+		s := hx.Pick(g.r, []string{"", "x", "ab", "hello", "a@b.co", "ABC", "a", "b"})
 		return s, strconv.Quote(s)
 	case 1:
 		n := hx.Pick(g.r, []int{-1, 0, 2, 3, 4, 5, 6, 7, 100})
